@@ -8,7 +8,6 @@ import (
 	"context"
 	"fmt"
 	"os"
-	"sort"
 	"strings"
 	"testing"
 
@@ -135,14 +134,6 @@ func vC10Listings(b *vBed) (sig, msg string) {
 	return "", ""
 }
 
-func vKeys(m map[string]bool) []string {
-	var out []string
-	for k := range m {
-		out = append(out, k)
-	}
-	sort.Strings(out)
-	return out
-}
 
 func vC10Check(rt *rapid.T, b *vBed, where string) {
 	got, err := b.readAll()
